@@ -132,11 +132,6 @@ type ChanV struct {
 	sendq []*sendWait
 	recvq []*Goroutine
 	et    types.Type
-	// race detection: clocks carried by buffered values, receive history, close
-	bufVC   []vclock
-	recvVCs []vclock
-	nSent   int
-	closeVC vclock
 }
 
 type sendWait struct {
